@@ -9,6 +9,7 @@ Expressions:  ('bool', b) ('num', Fraction, isint) ('str', s) ('id', [names]) ('
 Types:        'bool' 'int' 'real' 'string' ('ref', 'Qualified:Name')
 Statements:   ('local', ty, x, init|None) ('new', cls, x, [args]) ('expr', e) ('disj', lbl, [[stmts]..])
               ('formula', isfact, x, [scope], pred_qualified, [(f, e)..])
+              ('assign', [path], x, fresh, e)      `path.x = e;` fresh: x is not yet bound in the environment `path` denotes
 """
 from fractions import Fraction
 import re
@@ -190,6 +191,9 @@ def pp_stmt(s, ind=""):
         _, isfact, x, scope, pred, args = s
         short = pred.split(":")[-1]
         return ind + ("fact " if isfact else "goal ") + x + " = new " + ".".join(list(scope) + [short]) + "(" + ", ".join(f + ": " + check_expr_text(e) for f, e in args) + ");"
+    if k == 'assign':
+        _, path, x, fresh, e = s
+        return ind + ".".join(list(path) + [x]) + " = " + check_expr_text(e) + ";"
     raise ValueError(k)
 
 
@@ -336,6 +340,9 @@ def sx_stmt(s, I):
         _, isfact, x, scope, pred, args = s
         return "(formula %s %d (scope%s) %d (args%s))" % ("fact" if isfact else "goal", I(x), "".join(" %d" % I(n) for n in scope), I(pred),
                                                           "".join(" (%d %s)" % (I(f), sx_expr(e, I)) for f, e in args))
+    if k == 'assign':
+        _, path, x, fresh, e = s
+        return "(assign (path%s) %d %s %s)" % ("".join(" %d" % I(n) for n in path), I(x), "fresh" if fresh else "old", sx_expr(e, I))
     raise ValueError(k)
 
 
